@@ -171,26 +171,22 @@ theorem inv3_step (s s' : St) (e : Ev) (h : Inv3 s) (hs : step s e = some s') : 
     · split at hs
       · simp at hs; subst hs; exact inv3_congr (s := s) rfl rfl rfl h
       · simp at hs
-  | exec =>
+  | exec id =>
     simp only [step] at hs
     split at hs
-    · rename_i id op hc
+    · rename_i op hc
       simp at hs; subst hs
       exact inv3_congr (s := (execOp s op).1) rfl rfl rfl (inv3_execOp s op h)
     · simp at hs
   | ctor k d =>
     simp only [step] at hs
     split at hs
-    · split at hs
-      · simp at hs; subst hs; exact inv3_congr (s := s) rfl rfl rfl h
-      · simp at hs
+    · simp at hs; subst hs; exact inv3_congr (s := s) rfl rfl rfl h
     · simp at hs
   | ret id res =>
     simp only [step] at hs
     split at hs
-    · split at hs
-      · simp at hs; subst hs; exact inv3_congr (s := s) rfl rfl rfl h
-      · simp at hs
+    · simp at hs; subst hs; exact inv3_congr (s := s) rfl rfl rfl h
     · simp at hs
   | proceed g i =>
     simp only [step] at hs
